@@ -142,6 +142,7 @@ def explore(ctx, drv, model, cases, search=False):
         if mp[3] != "REENC=1":
             broken("C19 encode_model(decode_model(B)) = B", "case `%s` (%s): re-encoding differs\n bytes %s" % (row["case"], which, row["hex"]))
         row["cl" + which] = mp[2]
+        row["sig" + which] = mp[4] if len(mp) > 4 else ""
         if which == "B":
             if mp[2].count("=(") >= 4:
                 ctx.stats["nontrivial"].add(K.canon(want))
@@ -150,7 +151,9 @@ def explore(ctx, drv, model, cases, search=False):
             if any(t.endswith("#") for t in mp[2].replace(")", " ").split()):
                 ctx.stats["shared"] += 1
     for row in rows:
-        if "clB" in row and "clB2" in row and row["clB"] != row["clB2"] and K.canon(row["de"]) == K.canon(row["dl"]):
+        # the multiset of (node, number of occurrences in the stream) must be the same for dumps(e) and
+        # dumps(loads(dumps(e))): an object written once and referenced k times is again one object
+        if "sigB" in row and "sigB2" in row and row["sigB"] != row["sigB2"] and K.canon(row["de"]) == K.canon(row["dl"]):
             ctx.violation("C19/sharing-not-restored", "case `%s`: the DAG of loads(dumps(e)) differs from the DAG of e "
                           "(canonical labelled dumps of the two streams):\n   %s\n   %s" % (row["case"], row["clB"][:400], row["clB2"][:400]),
                           {"family": "codec", "case": row["case"], "impl": row["impl"][:2000]})
@@ -240,7 +243,7 @@ def replay(ctx, rep):
     print("case :", c)
     line = ctx.run_lines(drv, [c])[0]
     print("impl :", line)
-    p = line.split("\t")
+    p = line.partition("@")[2].split("\t") if "@" in line else line.split("\t")
     if c.startswith("rt") and len(p) >= 4 and not p[2].startswith("LOADFAIL"):
         print("e      :", K.canon(p[1]))
         print("loaded :", K.canon(p[2]))
